@@ -79,6 +79,51 @@ pub fn murmur3_x64_128(data: &[u8], seed: u64) -> (u64, u64) {
     (h1, h2)
 }
 
+/// Multiplicative inverse of an odd number modulo 2^64 (Newton iteration).
+fn inv_odd(a: u64) -> u64 {
+    let mut x = a; // correct to 3 bits
+    for _ in 0..6 {
+        x = x.wrapping_mul(2u64.wrapping_sub(a.wrapping_mul(x)));
+    }
+    x
+}
+
+fn unfmix(mut k: u64) -> u64 {
+    // inverse of: k ^= k >> 33; k *= M1; k ^= k >> 33; k *= M2; k ^= k >> 33
+    k ^= k >> 33;
+    k = k.wrapping_mul(inv_odd(0xc4ce_b9fe_1a85_ec53));
+    k ^= k >> 33;
+    k = k.wrapping_mul(inv_odd(0xff51_afd7_ed55_8ccd));
+    k ^= k >> 33;
+    k
+}
+
+/// A 16-byte key (as the little-endian bytes of a u128) whose MurmurHash3 x64 128 digest under
+/// `seed` is exactly `(h1, h2)`: every step of the single-block computation is a bijection.
+/// Lets a scenario drive the real update paths with prescribed hash values (all zero bits, a
+/// single bit, 63 leading zeros ...) that no random item reaches.
+pub fn murmur_preimage16(seed: u64, h1: u64, h2: u64) -> [u8; 16] {
+    // undo the final additions and the finalisation mix
+    let h2f = h2.wrapping_sub(h1);
+    let h1f = h1.wrapping_sub(h2f);
+    let (h1e, h2e) = (unfmix(h1f), unfmix(h2f));
+    let h2d = h2e.wrapping_sub(h1e);
+    let h1d = h1e.wrapping_sub(h2d);
+    let (h1c, h2c) = (h1d ^ 16, h2d ^ 16);
+    // undo the block round
+    let inv5 = inv_odd(5);
+    let y2 = h2c.wrapping_sub(0x3849_5ab5).wrapping_mul(inv5).wrapping_sub(h1c);
+    let k2m = y2.rotate_right(31) ^ seed;
+    let k2 = k2m.wrapping_mul(inv_odd(C1)).rotate_right(33).wrapping_mul(inv_odd(C2));
+    let y1 = h1c.wrapping_sub(0x52dc_e729).wrapping_mul(inv5).wrapping_sub(seed);
+    let k1m = y1.rotate_right(27) ^ seed;
+    let k1 = k1m.wrapping_mul(inv_odd(C2)).rotate_right(31).wrapping_mul(inv_odd(C1));
+    let mut out = [0u8; 16];
+    out[..8].copy_from_slice(&k1.to_le_bytes());
+    out[8..].copy_from_slice(&k2.to_le_bytes());
+    out
+}
+
 const P1: u64 = 0x9E37_79B1_85EB_CA87;
 const P2: u64 = 0xC2B2_AE3D_27D4_EB4F;
 const P3: u64 = 0x1656_67B1_9E37_79F9;
@@ -149,6 +194,10 @@ pub fn seed_hash(seed: u64) -> u16 {
 
 /// Canonical vectors. Panics (harness error) if the reference itself is wrong.
 pub fn self_test() {
+    for (seed, h1, h2) in [(0u64, 0u64, 0u64), (9001, 0, 1), (9001, u64::MAX, 0), (7, 0x1234_5678_9abc_def0, 3), (u64::MAX, 1, u64::MAX)] {
+        let key = murmur_preimage16(seed, h1, h2);
+        assert_eq!(murmur3_x64_128(&key, seed), (h1, h2), "refhash murmur preimage");
+    }
     let fox = b"The quick brown fox jumps over the lazy dog";
     assert_eq!(murmur3_x64_128(b"", 0), (0, 0), "refhash murmur empty");
     assert_eq!(
